@@ -1039,7 +1039,7 @@ def flag_locals(b):
     return out
 
 
-def feasible_states(b, target_bb, flags=None, discr_locals=None, max_states=20000):
+def feasible_states(b, target_bb, flags=None, discr_locals=None, max_states=20000, cut_edges=()):
     """Forward exploration from entry of abstract states (values of `flags`, discriminant knowledge
     of `discr_locals`); returns the set of states that can reach target_bb (empty = infeasible).
     If flags/discr_locals are None they are derived from the switches the target is (transitively)
@@ -1058,6 +1058,12 @@ def feasible_states(b, target_bb, flags=None, discr_locals=None, max_states=2000
     flags = sorted(flags)
     dls = sorted(discr_locals)
     # which blocks (re)define a discr local
+    cut_edges = set(cut_edges)
+
+    def _push(frm, item):
+        if (frm, item[0]) not in cut_edges:
+            work.append(item)
+
     init = (tuple([None] * len(flags)), tuple([None] * len(dls)))
     seen = {}
     work = [(0, init)]
@@ -1114,20 +1120,20 @@ def feasible_states(b, target_bb, flags=None, discr_locals=None, max_states=2000
                         eff = (1 - cur) if neg else cur
                         if (eff in vals) or (not vals and t["otherwise"] == s2 and eff not in listed) or \
                                 (vals and t["otherwise"] == s2 and eff not in listed):
-                            work.append((s2, (tuple(fv), tuple(dv))))
+                            _push(bb, (s2, (tuple(fv), tuple(dv))))
                     else:
                         # refine
                         if vals and len(vals) == 1 and t["otherwise"] != s2:
                             nf = list(fv)
                             nf[i] = (1 - vals[0]) if neg else vals[0]
-                            work.append((s2, (tuple(nf), tuple(dv))))
+                            _push(bb, (s2, (tuple(nf), tuple(dv))))
                         elif t["otherwise"] == s2 and len(listed) == 1 and listed[0] in (0, 1):
                             nf = list(fv)
                             v = 1 - listed[0]
                             nf[i] = (1 - v) if neg else v
-                            work.append((s2, (tuple(nf), tuple(dv))))
+                            _push(bb, (s2, (tuple(nf), tuple(dv))))
                         else:
-                            work.append((s2, (tuple(fv), tuple(dv))))
+                            _push(bb, (s2, (tuple(fv), tuple(dv))))
             elif src[0] == "discr" and is_bare(src[1]) and src[1]["l"] in dls:
                 i = dls.index(src[1]["l"])
                 handled = True
@@ -1146,14 +1152,14 @@ def feasible_states(b, target_bb, flags=None, discr_locals=None, max_states=2000
                     if nd != "EMPTY":
                         ndv = list(dv)
                         ndv[i] = nd
-                        work.append((s2, (tuple(fv), tuple(ndv))))
+                        _push(bb, (s2, (tuple(fv), tuple(ndv))))
             if not handled:
                 for s2 in b.succ(bb):
-                    work.append((s2, (tuple(fv), tuple(dv))))
+                    _push(bb, (s2, (tuple(fv), tuple(dv))))
         else:
             for s2 in b.succ(bb):
                 if not b.is_cleanup(s2):
-                    work.append((s2, (tuple(fv), tuple(dv))))
+                    _push(bb, (s2, (tuple(fv), tuple(dv))))
     return reached
 
 
